@@ -455,6 +455,15 @@ pub fn run(ctx: &Ctx) -> Report {
           }
         }
       }
+      // keep-alives without end: nothing but zero bytes after the handshake, then the peer hangs up
+      {
+        let t = [0x5au8; 20];
+        for n in [5_000usize] {
+          let mut inc = handshake(&t, true);
+          inc.extend(std::iter::repeat(0u8).take(4 * n));
+          v.push(Script { label: format!("keep-alive-flood-{n}"), target: t, incoming: inc, cuts: vec![], stages: vec![], ut_id: 1, served: None });
+        }
+      }
       // single-piece base for the size edge cases
       let small = info_of_size(&mut rng, 300);
       for hs in ["size-0", "size-minus-1", "size-plus-1", "ok"] {
@@ -537,6 +546,12 @@ pub fn run(ctx: &Ctx) -> Report {
     let scenario = if bad { *rng.pick(&["all-peers-lie", "no-peers", "tracker-silent"]) } else { *rng.pick(&["one-good", "good-among-bad"]) };
     let mut peers: Vec<PeerRun> = Vec::new();
     let lying = |rng: &mut Rng| {
+      if rng.chance(1, 4) {
+        // (or one that sends keep-alives without end)
+        let mut inc = handshake(&good.target, true);
+        inc.extend(std::iter::repeat(0u8).take(4 * 40_000));
+        return PeerRun::start(inc, vec![]);
+      }
       let mut s = adversarial(&served, &["flip", "ok", "ok"], "ok");
       s.cuts = vec![rng.below(50) as usize];
       PeerRun::start(s.incoming, s.cuts)
